@@ -719,6 +719,13 @@ pub fn replay_case(case: &Value, mat: Mat) -> Option<Value> {
                         return fail(si, "scripted trigger was not consulted as often as the specification says", Value::Null);
                     }
                 }
+                // Append::flush is no step of Rolling.tla: a flush that arrives before the first record (or at any other
+                // time) consults no trigger, rolls nothing and changes nothing that was acknowledged
+                if let Some(a) = &appender {
+                    if let Err(pn) = catch(|| a.flush()) {
+                        return fail(si, "flush panicked", json!(pn));
+                    }
+                }
                 // (with background rotation the directory is compared at the end of the history only: appends and
                 // restarts overlap the rotation thread)
                 if !cfg!(feature = "bgrot") || si + 1 == ops.len() {
